@@ -16,9 +16,50 @@ func effInt(v *int, min, def int) int {
 	return *v
 }
 
+// legalProbe: whatever was configured, the effective parameters are legal
+func legalProbe(name, kind string, p *ProbeLite) string {
+	switch {
+	case p == nil:
+		return ""
+	case p.InitialDelay < 0:
+		return fmt.Sprintf("%s: effective initial delay of the %s probe is %d", name, kind, p.InitialDelay)
+	case p.Period < 1:
+		return fmt.Sprintf("%s: effective period of the %s probe is %d", name, kind, p.Period)
+	case p.Timeout < 1:
+		return fmt.Sprintf("%s: effective time-out of the %s probe is %d", name, kind, p.Timeout)
+	case p.Success < 1:
+		return fmt.Sprintf("%s: effective success threshold of the %s probe is %d", name, kind, p.Success)
+	case p.Failure < 1:
+		return fmt.Sprintf("%s: effective failure threshold of the %s probe is %d", name, kind, p.Failure)
+	case p.HTTP && (p.NumPort < 0 || p.NumPort > 65535):
+		return fmt.Sprintf("%s: effective port of the %s probe is %d", name, kind, p.NumPort)
+	}
+	return ""
+}
+
 func checkC10(sc *Scenario, res *RunResult, t *Truth) []Violation {
 	var vs []Violation
 	sd := t.firstShutdownSeq(sc)
+	for _, c := range t.Calls {
+		if a, ok := c.Data.(*Audit); ok && a != nil && c.Client == "params" {
+			for _, p := range sc.Project.Procs {
+				inf, ok := a.Infos[p.Name]
+				if !ok || inf.Err != "" {
+					continue
+				}
+				if (p.Readiness != nil) != (inf.Readiness != nil) || (p.Liveness != nil) != (inf.Liveness != nil) {
+					vs = append(vs, Violation{"C10", "probe-configuration-lost", "", fmt.Sprintf("%s: configured probes readiness=%v liveness=%v, reported readiness=%v liveness=%v", p.Name, p.Readiness != nil, p.Liveness != nil, inf.Readiness != nil, inf.Liveness != nil), c.RetSeq})
+					continue
+				}
+				for _, m := range []string{legalProbe(p.Name, "readiness", inf.Readiness), legalProbe(p.Name, "liveness", inf.Liveness)} {
+					if m != "" {
+						vs = append(vs, Violation{"C10", "illegal-effective-probe-parameter", "", m, c.RetSeq})
+					}
+				}
+			}
+		}
+	}
+	vs = append(vs, checkC10Daemon(sc, t, sd)...)
 	for _, p := range sc.Project.Procs {
 		if p.Readiness == nil || p.IsDaemon || p.Replicas > 1 {
 			continue
@@ -160,6 +201,11 @@ func checkC10(sc *Scenario, res *RunResult, t *Truth) []Violation {
 				continue
 			}
 			st, okS := sn.States[rep]
+			if okS && st.Status != "Running" && st.Health == "Ready" {
+				// the subjects never exit by themselves: not Running means stopped or restarting
+				vs = append(vs, Violation{"C10", "ready-while-not-running", "status=" + st.Status, fmt.Sprintf("%s is reported Ready at t=%v while its status is %s: readiness is forgotten when a process is stopped or restarted", rep, sn.T, st.Status), sn.Seq})
+				break
+			}
 			if !okS || st.Status != "Running" {
 				continue
 			}
@@ -219,6 +265,115 @@ func checkC10(sc *Scenario, res *RunResult, t *Truth) []Violation {
 	return vs
 }
 
+// checkC10Daemon: a daemon whose liveness probe fails failure_threshold times in a row is
+// treated as exited (and its restart policy applied); not before
+func checkC10Daemon(sc *Scenario, t *Truth, sd int) []Violation {
+	var vs []Violation
+	p := sc.Project.Proc("d")
+	if p == nil || p.Liveness == nil {
+		return nil
+	}
+	threshold := effInt(p.Liveness.FailureThreshold, 1, 3)
+	launches := t.ByRep["d"]
+	probes := t.ByToken["simprobe:d"]
+	ok := func(pr *Inst) bool { return pr.ExitSeq >= 0 && pr.Code == 0 && pr.BySig == 0 }
+	userStop := func(before int) bool {
+		for _, c := range t.stopCalls("d") {
+			if c.CallSeq < before {
+				return true
+			}
+		}
+		return sd >= 0 && sd < before
+	}
+	for li, L := range launches {
+		if L.ExitSeq < 0 || L.Code != 0 {
+			continue // the launcher did not finish (or failed): not a launched daemon
+		}
+		hi := 1 << 60
+		if li+1 < len(launches) {
+			hi = launches[li+1].ExecSeq
+		}
+		// probe runs that belong to this launch (a stopped prober may still start a run)
+		old := map[int]bool{}
+		for _, pr := range probes {
+			if pr.ExecSeq < L.ExecSeq {
+				old[pr.ExecTask] = true
+			}
+		}
+		consec, fatalAt := 0, -1
+		var fatalT time.Duration
+		for _, pr := range probes {
+			if pr.ExecSeq < L.ExecSeq || pr.ExecSeq > hi || old[pr.ExecTask] || pr.ExitSeq < 0 || pr.ExitSeq > hi {
+				continue
+			}
+			if ok(pr) {
+				consec = 0
+			} else {
+				consec++
+			}
+			if consec >= threshold && fatalAt < 0 {
+				fatalAt, fatalT = pr.ExitSeq, pr.ExitT
+			}
+		}
+		// when did the daemon stop being Launched?
+		endSeq := -1
+		var endT time.Duration
+		launched := false
+		for _, tr := range t.Trans["d"] {
+			if tr.Seq < L.ExitSeq || tr.Seq > hi {
+				continue
+			}
+			if tr.State == "Launched" {
+				launched = true
+			} else if launched && endSeq < 0 && (tr.State == "Completed" || tr.State == "Restarting" || tr.State == "Terminating") {
+				endSeq, endT = tr.Seq, tr.T
+			}
+		}
+		if !launched {
+			continue
+		}
+		if endSeq >= 0 && !userStop(endSeq+1) && (fatalAt < 0 || endSeq < fatalAt) {
+			vs = append(vs, Violation{"C10", "daemon-ended-before-liveness-threshold", fmt.Sprintf("threshold=%d", threshold), fmt.Sprintf("daemon d (launch %d) left the Launched state at seq %d without %d consecutive liveness failures and without a stop request", li, endSeq, threshold), endSeq})
+			continue
+		}
+		if fatalAt >= 0 && !userStop(fatalAt) {
+			if endSeq < 0 || userStop(endSeq+1) {
+				// it did not end by itself: how long was it left alone after the threshold was
+				// reached (and the daemon was up)?
+				obsEnd := t.EndT
+				if sd >= 0 {
+					obsEnd = t.Events[sd].T
+				}
+				for _, c := range t.stopCalls("d") {
+					if c.CallT < obsEnd {
+						obsEnd = c.CallT
+					}
+				}
+				from := fatalT
+				if L.ExitT > from {
+					from = L.ExitT
+				}
+				if obsEnd-from > 3*time.Second {
+					vs = append(vs, Violation{"C10", "daemon-not-treated-as-exited", fmt.Sprintf("threshold=%d", threshold), fmt.Sprintf("the liveness probe of daemon d (launch %d) failed %d times in a row (the last at t=%v, daemon launched at t=%v) but the daemon is still treated as running at t=%v", li, threshold, fatalT, L.ExitT, obsEnd), fatalAt})
+				}
+				continue
+			}
+			owed := restartOwed(p, 0, li)
+			var next *Inst
+			if li+1 < len(launches) {
+				next = launches[li+1]
+			}
+			if owed && next == nil && t.EndT-endT > backoffOf(p)+5*time.Second && !userStop(t.EndSeq) {
+				vs = append(vs, Violation{"C10", "daemon-not-relaunched-after-liveness-failure", "policy=" + p.Restart, fmt.Sprintf("daemon d was treated as exited at t=%v after %d consecutive liveness failures and, with restart policy %q, must be relaunched; it was not by t=%v", endT, threshold, p.Restart, t.EndT), endSeq})
+			}
+			if !owed && next != nil && !t.explicitStartCovering("d", L.ExecSeq, next.ExecSeq) {
+				vs = append(vs, Violation{"C10", "daemon-relaunched-without-policy", "policy=" + p.Restart, fmt.Sprintf("daemon d was relaunched after its liveness failure although its restart policy is %q", p.Restart), next.ExecSeq})
+			}
+		}
+	}
+	return vs
+}
+
 func genC10(r *R, sc *Scenario) {
 	spec := &ProjectSpec{}
 	sc.Project = spec
@@ -252,8 +407,15 @@ func genC10(r *R, sc *Scenario) {
 		for l := 0; l < 4; l++ {
 			// the subject never exits by itself: its launches end only through probe-triggered
 			// or requested stops, so every launch has a prober life of its own
-			s := simos.Script{LifeMs: -1, Exit: Pick(r, 0, 1), TermLagMs: Pick(r, 0, 10, 500), ExitOnSig: Pick(r, 0, 0, 143)}
+			s := simos.Script{LifeMs: -1, Exit: Pick(r, 0, 1), TermLagMs: Pick(r, 0, 10, 500, 1500, 3000), ExitOnSig: Pick(r, 0, 0, 143)}
 			ts.Launches = append(ts.Launches, s)
+		}
+		if r.P(150) {
+			// a stop that lasts: SIGTERM is ignored and the time-out has to kill
+			for l := range ts.Launches {
+				ts.Launches[l].Ignore = []int{15}
+			}
+			p.StopTimeout = iptr(Pick(r, 2, 3))
 		}
 		sc.Scripts[p.Token] = ts
 		// probe outcome sequence
@@ -288,7 +450,70 @@ func genC10(r *R, sc *Scenario) {
 	sc.RunForMs = Pick(r, 30000, 60000, 120000)
 	sc.QuietMs = 1000
 	sc.Arm = "probes"
-	if r.P(250) {
+	if r.P(350) {
 		sc.Clients = append(sc.Clients, Client{Name: "c", Ops: []Op{{AtMs: whenMs(r, 20000), Op: Pick(r, "stop", "restart"), Arg: spec.Procs[0].Name}}})
 	}
+	// a daemon with a liveness probe
+	if r.P(400) {
+		d := &ProcSpec{Name: "d", Token: "d", IsDaemon: true, StopCmd: "d"}
+		d.Restart = Pick(r, "", "no", "always", "always", "on_failure")
+		if d.Restart == "always" || d.Restart == "on_failure" {
+			d.Backoff = iptr(Pick(r, 1, 2))
+			if r.P(500) {
+				d.MaxRestarts = r.Range(1, 3)
+			}
+		}
+		d.Liveness = &ProbeSpec{Token: "d", InitialDelay: opt(), Period: opt(), Timeout: opt(), SuccessThreshold: opt(), FailureThreshold: opt()}
+		if d.Liveness.Period == nil || *d.Liveness.Period > 3 || *d.Liveness.Period < 1 {
+			d.Liveness.Period = iptr(Pick(r, 1, 2, 3))
+		}
+		if d.Liveness.InitialDelay != nil && *d.Liveness.InitialDelay == 10 {
+			d.Liveness.InitialDelay = iptr(2)
+		}
+		// the launcher forks the daemon and exits; sometimes it takes longer than the probe
+		// needs to reach its threshold
+		ts := &TokenScript{}
+		for l := 0; l < 5; l++ {
+			ts.Launches = append(ts.Launches, simos.Script{LifeMs: Pick(r, 50, 300, 1000, 2500, 5000), Exit: 0})
+		}
+		sc.Scripts["d"] = ts
+		sc.Scripts["simstop:d"] = &TokenScript{Launches: []simos.Script{{LifeMs: Pick(r, 10, 200), Exit: 0}}}
+		ps := &TokenScript{}
+		m := r.Range(4, 16)
+		okp := Pick(r, 150, 500, 850)
+		for k := 0; k < m; k++ {
+			switch {
+			case r.P(okp):
+				ps.Launches = append(ps.Launches, simos.Script{LifeMs: Pick(r, 5, 50, 400), Exit: 0})
+			case r.P(150):
+				ps.Launches = append(ps.Launches, simos.Script{LifeMs: -1})
+			default:
+				ps.Launches = append(ps.Launches, simos.Script{LifeMs: Pick(r, 5, 50, 400), Exit: Pick(r, 1, 2)})
+			}
+		}
+		sc.Scripts["simprobe:d"] = ps
+		spec.Procs = append(spec.Procs, d)
+	}
+	// a process that is never started carries an http probe: only its effective parameters matter
+	if r.P(500) {
+		hp := &ProcSpec{Name: "hp", Token: "hp", Disabled: true}
+		hs := &HTTPSpec{Host: Pick(r, "", "", "localhost", "  "), Scheme: Pick(r, "", "https"), Path: Pick(r, "", "/healthz")}
+		ports := []int{-5, 0, 1, 80, 8080, 65535, 65536, 70000, 1 << 20}
+		switch r.Intn(4) {
+		case 0:
+			hs.Port = fmt.Sprint(ports[r.Intn(len(ports))])
+		case 1:
+			hs.NumPort = iptr(ports[r.Intn(len(ports))])
+		case 2:
+			hs.Port = Pick(r, "http", "80x", "", "8080")
+			hs.NumPort = iptr(ports[r.Intn(len(ports))])
+		}
+		hp.Readiness = &ProbeSpec{Token: "hp", HTTP: hs, InitialDelay: opt(), Period: opt(), Timeout: opt(), SuccessThreshold: opt(), FailureThreshold: opt()}
+		if r.P(300) {
+			hp.Liveness = &ProbeSpec{Token: "hp", InitialDelay: opt(), Period: opt(), Timeout: opt(), SuccessThreshold: opt(), FailureThreshold: opt()}
+		}
+		sc.Scripts["hp"] = &TokenScript{Launches: []simos.Script{{LifeMs: 100}}}
+		spec.Procs = append(spec.Procs, hp)
+	}
+	sc.Clients = append(sc.Clients, Client{Name: "params", Ops: []Op{{AtMs: 300, Op: "audit"}}})
 }
